@@ -80,12 +80,39 @@ func panicClass(p string) string {
 	}
 }
 
+// originClass folds the per-case names of the enumerations (one per box type, length and gap) into one class per
+// enumeration, header width and enclosing box, so that the evidence lists a few dozen classes instead of 25,000.
+func originClass(o string) string {
+	head, tail, ok := strings.Cut(o, ":")
+	if !ok {
+		return o
+	}
+	switch head {
+	case "small-box-at-buffer-end", "small-box":
+		cl := head
+		if strings.HasPrefix(tail, "large-") {
+			cl += ":64-bit-header"
+		}
+		if i := strings.Index(tail, "-in-"); i >= 0 {
+			w := tail[i+4:]
+			if j := strings.Index(w, "-len"); j >= 0 {
+				w = w[:j]
+			}
+			cl += ":in-" + w
+		}
+		return cl
+	case "heif-item-offset-sweep", "caller-bufio-offset", "xmp-nesting-depth":
+		return head
+	}
+	return o
+}
+
 func eval(c Case) *pbt.Fail {
 	if c.XMPDepth > 0 && c.Req.Input == nil {
 		c.Req.Input = append([]byte("<x:xmpmeta xmlns:x=\"adobe:ns:meta/\">"), bytes.Repeat([]byte("<a:b>"), c.XMPDepth)...)
 	}
 	r := cl.Do(c.Req, worker.Watchdog(len(c.Req.Input)))
-	cls := []string{"entry:" + c.Req.Entry, "origin:" + c.Origin}
+	cls := []string{"entry:" + c.Req.Entry, "origin:" + originClass(c.Origin)}
 	if c.Req.Reader.Mode != "" {
 		cls = append(cls, "reader:"+c.Req.Reader.Mode+":"+c.Req.Reader.FaultErr)
 	}
